@@ -2238,15 +2238,28 @@ DFSDIgetndg(int32 file_id, uint16 tag, uint16 ref, DFSsdg *sdg)
                     HGOTO_ERROR(DFE_NOSPACE, FAIL);
                 }
 
-                /* read dimension record */
-                if (Hread(aid, (int32)4 * sdg->rank, ptbuf) == FAIL) {
+                /* read dimension record: 4 bytes per dimension, which does not fit ptbuf (TBUF_SZ) for large ranks */
+                if (sdg->rank < 0) {
+                    DFdifree(GroupID);
+                    Hendaccess(aid);
+                    HGOTO_ERROR(DFE_CORRUPT, FAIL);
+                }
+                buf = (uint8 *)malloc((size_t)4 * (size_t)sdg->rank + 1);
+                if (buf == NULL) {
+                    DFdifree(GroupID);
+                    Hendaccess(aid);
+                    HGOTO_ERROR(DFE_NOSPACE, FAIL);
+                }
+                if (Hread(aid, (int32)4 * sdg->rank, buf) == FAIL) {
+                    free(buf);
                     DFdifree(GroupID);
                     Hendaccess(aid);
                     HGOTO_ERROR(DFE_READERROR, FAIL);
                 }
-                p = ptbuf;
+                p = buf;
                 for (i = 0; i < sdg->rank; i++)
                     INT32DECODE(p, sdg->dimsizes[i]);
+                free(buf);
 
                 /* read tag/ref of NT */
                 if (Hread(aid, (int32)4, ptbuf) == FAIL) {
@@ -2792,8 +2805,11 @@ DFSDIputndg(int32 file_id, uint16 ref, DFSsdg *sdg)
 
     /* write out NDD (dimension record) */
     if (Ref.dims <= 0) { /* new NDD; write rank, dims, data NT and scale NTs */
-        /* put rank & dimensions in buffer */
-        bufp = ptbuf;
+        /* put rank & dimensions in buffer: 2 + 4*rank + 4*(rank+1) bytes, more than ptbuf (TBUF_SZ) holds from rank 128 */
+        uint8 *sddbuf = (uint8 *)malloc((size_t)8 * (size_t)sdg->rank + 6);
+        if (sddbuf == NULL)
+            HGOTO_ERROR(DFE_NOSPACE, FAIL);
+        bufp = sddbuf;
         UINT16ENCODE(bufp, sdg->rank);
         for (i = 0; i < sdg->rank; i++)
             INT32ENCODE(bufp, sdg->dimsizes[i]);
@@ -2808,8 +2824,11 @@ DFSDIputndg(int32 file_id, uint16 ref, DFSsdg *sdg)
             UINT16ENCODE(bufp, nt.ref);
         }
         /* write out NDD record */
-        if (Hputelement(file_id, DFTAG_SDD, ref, ptbuf, (int32)(bufp - ptbuf)) == FAIL)
+        if (Hputelement(file_id, DFTAG_SDD, ref, sddbuf, (int32)(bufp - sddbuf)) == FAIL) {
+            free(sddbuf);
             HGOTO_ERROR(DFE_PUTELEM, FAIL);
+        }
+        free(sddbuf);
         Ref.dims = (int)ref;
     }
     /* write dimension record tag/ref */
@@ -2819,9 +2838,21 @@ DFSDIputndg(int32 file_id, uint16 ref, DFSsdg *sdg)
     /* write out label/unit/format */
     for (luf = LABEL; luf <= FORMAT; luf++) {
         luftag = (uint16)((luf == LABEL) ? DFTAG_SDL : (luf == UNIT) ? DFTAG_SDU : DFTAG_SDF);
-        bufp   = ptbuf;
         /* this block of code checks if luf is NULL, else writes it */
         if (!Ref.luf[luf]) {   /* if luf was set */
+            uint8 *lufbuf;
+            size_t luflen = 1; /* the strings are of any length: size the record, ptbuf (TBUF_SZ) may be too small */
+
+            if (sdg->dataluf[luf])
+                luflen += strlen(sdg->dataluf[luf]);
+            for (i = 0; i < sdg->rank; i++) {
+                luflen += 1;
+                if (sdg->dimluf[luf] && sdg->dimluf[luf][i])
+                    luflen += strlen(sdg->dimluf[luf][i]);
+            }
+            if ((lufbuf = (uint8 *)malloc(luflen)) == NULL)
+                HGOTO_ERROR(DFE_NOSPACE, FAIL);
+            bufp         = lufbuf;
             Ref.luf[luf] = -1; /* assume it is NULL */
 
             /* if dataluf non-NULL, set up to write */
@@ -2844,8 +2875,11 @@ DFSDIputndg(int32 file_id, uint16 ref, DFSsdg *sdg)
                 }
             }                        /* i loop   */
             Ref.luf[luf] = (int)ref; /* remember ref */
-            if (Hputelement(file_id, luftag, (uint16)Ref.luf[luf], ptbuf, (int32)(bufp - ptbuf)) == FAIL)
+            if (Hputelement(file_id, luftag, (uint16)Ref.luf[luf], lufbuf, (int32)(bufp - lufbuf)) == FAIL) {
+                free(lufbuf);
                 HGOTO_ERROR(DFE_PUTELEM, FAIL);
+            }
+            free(lufbuf);
         } /* luf was set */
 
         /* write luf tag/ref */
